@@ -48,7 +48,7 @@ func sameObs(a, b Obs) bool {
 func Check(c *core.Ctx) (map[string]any, []string, error) {
 	nProg := 4000
 	if c.Thorough() {
-		nProg = 80000
+		nProg = 60000
 	}
 	if s := os.Getenv("VERIF_C01_PROGRAMS"); s != "" {
 		fmt.Sscan(s, &nProg)
@@ -124,7 +124,7 @@ func Check(c *core.Ctx) (map[string]any, []string, error) {
 	badByProg := map[*progRec]bool{}
 	res, err := tlc.Run(tlc.Opts{SpecDir: c.SpecDir, Module: "C01",
 		Cfg:     fmt.Sprintf("CONSTANTS\n OpenDev = %s\n Fuel = 300\nINIT Init\nNEXT Next\nINVARIANT Check\nCHECK_DEADLOCK FALSE\n", core.TLASet(c.Findings.OpenIDs())),
-		Workers: c.Workers, Files: map[string][]byte{"trace.ndjson": buf.Bytes()}, Timeout: 60 * time.Minute, HeapMB: 12000},
+		Workers: c.Workers, Files: map[string][]byte{"trace.ndjson": buf.Bytes()}, Timeout: 180 * time.Minute, HeapMB: 12000},
 		func(p []byte) {
 			var v verdict
 			if json.Unmarshal(p, &v) != nil {
